@@ -32,20 +32,18 @@ Definition C07_step_positive_full_statement : Prop :=
   forall phi prm p0 a t0, (0 < maxit prm)%Z ->
   ok (ls_get phi prm p0 a t0) = true -> (0 <? rt (ls_get phi prm p0 a t0)) = true.
 
-(* "success => the last evaluation was requested at the returned t" (without the validity guard) *)
-Definition C07_state_at_step_full_statement : Prop :=
-  forall phi prm p0 a t0, (0 < maxit prm)%Z -> ok (ls_get phi prm p0 a t0) = true ->
-  exists rest, trace (rs (ls_get phi prm p0 a t0)) = rt (ls_get phi prm p0 a t0) :: rest.
-
 Lemma s_step_positive_refuted : ~ C07_step_positive_full_statement.
 Proof.
   intros F. specialize (F phi_cliff (prm_default 800) p0_slope Backtrack 1 eq_refl).
   vm_compute in F. specialize (F eq_refl). discriminate.
 Qed.
 
-Lemma s_state_at_step_refuted : ~ C07_state_at_step_full_statement.
-Proof.
-  intros F. specialize (F phi_stale (prm_default 2) p0_slope Lemarechal 1 eq_refl).
-  vm_compute in F. specialize (F eq_refl). destruct F as [rest F]. injection F as E _.
-  apply (f_equal (fun x => x =? 0x1.3333333333333p-2)) in E. vm_compute in E. discriminate.
-Qed.
+(* do_get on its own (entered with an invalid state that belongs to another step, as lsearchk_t::get did before it
+   checked the state after the `*0.3` loop) can report success on that state: the guard in get() is what excludes it *)
+Definition stale_entry : state := update phi_stale (update phi_stale (init_state p0_slope) 1) 0x1.3333333333333p-2.
+
+Lemma s_do_get_alone_accepts_invalid_state :
+  let r := do_get phi_stale (prm_default 2) p0_slope Lemarechal stale_entry 0x1.70a3d70a3d70ap-4 in
+  ok r = true /\ pv (cur (rs r)) = false /\ trace (rs r) = [0x1.3333333333333p-2; 1] /\
+  (rt r =? 0x1.3333333333333p-2) = false.
+Proof. vm_compute. repeat split; reflexivity. Qed.
